@@ -1,6 +1,7 @@
 package interp
 
 import (
+	"os"
 	"fmt"
 	"go/types"
 	"math/big"
@@ -59,6 +60,12 @@ func init() {
 		v := asInt64(a[1])
 		if i.eng.Cfg.Tier == "thorough" {
 			v = asInt64(a[2])
+		}
+		// experiments only (never set by a registered command): VERIF_BOUND_<label>=<n>
+		if o := os.Getenv("VERIF_BOUND_" + a[0].(string)); o != "" {
+			if n, err := strconv.ParseInt(o, 10, 64); err == nil {
+				v = n
+			}
 		}
 		i.ctx.concreteInput("bound:"+a[0].(string), v)
 		return int(v)
